@@ -309,8 +309,6 @@ def examine_output_dir_to_determine_current_iteration(output_dir, batch_size):
 
         plate_dirs = sorted(plate_dirs, key=dir_sort_key)
 
-        current_plate_idx = 0
-
         for idx, plate_dir in enumerate(plate_dirs):
             plate_idx = dir_sort_key(plate_dir)
 
